@@ -579,6 +579,8 @@ def _get_area(
     area = []
 
     for interval in intervals:
+        if interval[0] > interval[1]:
+            interval = (interval[1], interval[0])
         if interval[0] > global_axis[-1]:
             continue
         bounded_interval = (
